@@ -310,8 +310,15 @@ def srcReferringMultiTags (b : Blk) (srcId : String) : List Holder := b.mtags.fi
 def hasSourceKey (key : String) (s : Src) : Bool :=
   s.children.any (fun c => c.val.name == key) || (looksLikeUUID key && s.children.any (fun c => c.val.id == key))
 
-/-- `Source::parentSource()`: the first hit of `b.findSources(SourceFilter<Source>(id()))`, or a null source -/
+/-- `!src.sources(util::IdFilter<Source>(my_id)).empty()`: a direct child with that id -/
+def hasChildWithId (id : String) (s : Src) : Bool := s.children.any (fun c => c.val.id == id)
+
+/-- `Source::parentSource()`: the first hit of `b.findSources(<has a direct child with id()>)`, or a null source -/
 def parentSource (b : Blk) (srcId : String) : Option Src :=
+  (blockFindSources (hasChildWithId srcId) unlimited b.sources).head?
+
+/-- `Source::parentSource()` as it was before fix S1: `b.findSources(SourceFilter<Source>(id()))`, i.e. by `hasSource(name_or_id)` -/
+def parentSourceByKey (b : Blk) (srcId : String) : Option Src :=
   (blockFindSources (hasSourceKey srcId) unlimited b.sources).head?
 
 /-! ### inherited properties -/
